@@ -580,6 +580,32 @@ SOURCE_TIE["C17"] = dict(
          "by tools/translate_parseorder.py are trusted; value ids = stored values, NodeId = name, fresh_id() called once "
          "per EnumEntry (visible in its translated schedule).",
     technique=" + code translator (element schedules of every Parse impl of genapi/src/parser)")
+SOURCE_TIE["C19"] = dict(
+    text=" TIE TO THE SOURCE CODE (buffer protocol of gentl/src/ffi/mod.rs; the state machine, the ports and "
+         "GCGetLastError stay tied by correspondence): tools/translate_gentl.py (own tokenizer, statement parser and "
+         "emitter) re-translates on every run into gen/GenTLSrc.v: `impl From<&GenTlError> for GC_ERROR` (the variant "
+         "set is checked against the `use` list and enum GenTlError of lib.rs; the three forwarding From impls are "
+         "pinned), newtype_enum! INFO_DATATYPE, and EVERY `impl CopyTo for ..` - &str, &[u8], bool8_t, TlType, ModuleType "
+         "(match self -> text, forwarded to &str), DeviceAccessStatus (`*self as i32`, forwarded to i32) and the six "
+         "invocations of impl_copy_to_for_numeric! expanded from the parsed macro definition - statement by statement as "
+         "state transformers over (dst NULL?, the cell behind dst_size, the caller's buffer): the ASCII test, len + 1 in "
+         "debug-build usize arithmetic, the NULL test, `*dst_size < len` and its early return, copy_nonoverlapping, "
+         "dst.add(len).write(0), `*dst = x`, `*dst_size = len`; model/GtlOps.v gives these operations their meaning (an "
+         "out-of-bounds or NULL write is Panic). C19_copy_str_from_source (every byte list shorter than 2^64 - 1, every "
+         "destination, every in-size, every buffer at least as large as announced), C19_copy_numeric_from_source (every "
+         "integer) prove the translated functions equal to the state described by model/GenTL.v's str_copy_to / copy_to "
+         "(written bytes, stored size, error code; on an error nothing changed), C19_error_codes_from_source that the "
+         "translated table is code_of (same variants, distinct numbers) and the info types are the model's. "
+         "C19_buffer_protocol_of_source states the protocol on the translated code alone (NULL -> size incl. the NUL "
+         "terminator, nothing written; too small -> -1016, nothing written, *dst_size left unchanged; else exactly the "
+         "bytes, rest of the buffer untouched), C19_source_examples evaluates it. The set of CopyTo impls, their three "
+         "items and the trait are asserted; a source change outside the accepted statements is reported as a broken "
+         "proof obligation (ShapeError), a change inside them breaks the equalities.",
+    note=" Also trusted: tools/translate_gentl.py (parser, textual expansion of impl_copy_to_for_numeric!, the continuation "
+         "of an `if` without else, a GenTlError represented by its C code) and model/GtlOps.v (the three-component state; "
+         "a `*mut iN` destination as little-endian bytes; dst_size assumed non-NULL as the code does). copy_info is "
+         "pinned by text, GCGetLastError / GCReadPort / GCWritePort are not translated.",
+    technique=" + code translator (CopyTo implementations and the GC_ERROR table of gentl/src/ffi/mod.rs)")
 for _pid, _d in SOURCE_TIE.items():
     if _pid in CLAIMED:
         for _k in ("text", "note", "technique"):
